@@ -7,10 +7,10 @@ specification vocabulary in Spec/Sphere.lean).  They are statements about `Pymee
 real-number instantiation of the model in templates/Coords.lean (an `Angle` is its degree value).
 `dir lon lat` is the unit vector of a direction (degrees), `rad` converts degrees to radians.
 
-Every conversion theorem carries the safety hypothesis `-90 < latitude < 90`: the source evaluates
-`tan(latitude)` and the rotation statement is multiplied through by `cos(latitude) > 0`; nothing here
-relies on `x / 0 = 0` or on `tan (π/2)`.  The exact poles are covered by the predicate check only.
-The conclusion `f … = .ok …` says that no `ValueError` (asin domain) is raised in real arithmetic.
+The source (after the fixes proposed in findings.d/proposed-1..4.patch) forms the three components x, y, z of
+the rotated direction and returns `atan2(y, x)`, `atan2(z, sqrt(x*x + y*y))`: no `tan`, no `asin`, no
+division.  The conversion theorems therefore hold for EVERY direction, both poles included, with no safety
+hypothesis; the conclusion `f … = .ok …` says that nothing is raised.
 -/
 noncomputable section
 namespace Pymeeus.C05
@@ -19,43 +19,41 @@ open Real Pymeeus Pymeeus.PR Pymeeus.GenR.Coords Pymeeus.Spec.Sphere Pymeeus.Ref
 /-! ### "conversions are rotations" — `dir (f p) = M · dir p`, with the documented ranges -/
 
 /-- equatorial → ecliptical is the rotation `Rx(ε)`; longitude in [0, 360), latitude in [-90, 90]. -/
-theorem is_rotation_equatorial2ecliptical (α δ ε : ℝ) (hδ : -90 < δ ∧ δ < 90) :
+theorem is_rotation_equatorial2ecliptical (α δ ε : ℝ) :
     ∃ lon lat, equatorial2ecliptical α δ ε = .ok (lon, lat) ∧
       dir lon lat = rotX (rad ε) (dir α δ) ∧ (0 ≤ lon ∧ lon < 360) ∧ (-90 ≤ lat ∧ lat ≤ 90) :=
-  equatorial2ecliptical_spec α δ ε hδ
+  equatorial2ecliptical_spec α δ ε
 
 /-- ecliptical → equatorial is the rotation `Rx(-ε)`; right ascension in [0, 360), declination in [-90, 90]. -/
-theorem is_rotation_ecliptical2equatorial (l b ε : ℝ) (hb : -90 < b ∧ b < 90) :
+theorem is_rotation_ecliptical2equatorial (l b ε : ℝ) :
     ∃ ra dec, ecliptical2equatorial l b ε = .ok (ra, dec) ∧
       dir ra dec = rotX (-(rad ε)) (dir l b) ∧ (0 ≤ ra ∧ ra < 360) ∧ (-90 ≤ dec ∧ dec ≤ 90) :=
-  ecliptical2equatorial_spec l b ε hb
+  ecliptical2equatorial_spec l b ε
 
 /-- (hour angle, declination) → (azimuth from the South westwards, elevation) is the rotation that takes
     the direction (H = 0, δ = φ) to the zenith; azimuth in (-180, 180], elevation in [-90, 90]. -/
-theorem is_rotation_equatorial2horizontal (H δ φ : ℝ) (hδ : -90 < δ ∧ δ < 90) :
+theorem is_rotation_equatorial2horizontal (H δ φ : ℝ) :
     ∃ azi ele, equatorial2horizontal H δ φ = .ok (azi, ele) ∧
       dir azi ele = horizontalOfEquatorial (rad φ) (dir H δ) ∧ (-180 < azi ∧ azi ≤ 180) ∧ (-90 ≤ ele ∧ ele ≤ 90) :=
-  equatorial2horizontal_spec H δ φ hδ
+  equatorial2horizontal_spec H δ φ
 
 /-- horizontal → equatorial is the transposed rotation; hour angle in (-180, 180], declination in [-90, 90]. -/
-theorem is_rotation_horizontal2equatorial (A h φ : ℝ) (hh : -90 < h ∧ h < 90) :
+theorem is_rotation_horizontal2equatorial (A h φ : ℝ) :
     ∃ H dec, horizontal2equatorial A h φ = .ok (H, dec) ∧
       dir H dec = equatorialOfHorizontal (rad φ) (dir A h) ∧ (-180 < H ∧ H ≤ 180) ∧ (-90 ≤ dec ∧ dec ≤ 90) :=
-  horizontal2equatorial_spec A h φ hh
+  horizontal2equatorial_spec A h φ
 
 /-- equatorial → galactic is the fixed rotation built from 192.25°, 27.4°, 303°; longitude in [0, 360). -/
-theorem is_rotation_equatorial2galactic (α δ : ℝ) (hδ : -90 < δ ∧ δ < 90) :
+theorem is_rotation_equatorial2galactic (α δ : ℝ) :
     ∃ lon lat, equatorial2galactic α δ = .ok (lon, lat) ∧
       dir lon lat = galacticOfEquatorial (dir α δ) ∧ (0 ≤ lon ∧ lon < 360) ∧ (-90 ≤ lat ∧ lat ≤ 90) :=
-  equatorial2galactic_spec α δ hδ
+  equatorial2galactic_spec α δ
 
 /-- galactic → equatorial is the fixed rotation built from 123°, 27.4°, 12.25°; right ascension in [0, 360). -/
-theorem is_rotation_galactic2equatorial (l b : ℝ) (hb : -90 < b ∧ b < 90) :
+theorem is_rotation_galactic2equatorial (l b : ℝ) :
     ∃ ra dec, galactic2equatorial l b = .ok (ra, dec) ∧
       dir ra dec = equatorialOfGalactic (dir l b) ∧ (0 ≤ ra ∧ ra < 360) ∧ (-90 ≤ dec ∧ dec ≤ 90) :=
-  galactic2equatorial_spec l b hb
-
-example : (-90 : ℝ) < 28.026183 ∧ (28.026183 : ℝ) < 90 := by norm_num
+  galactic2equatorial_spec l b
 
 /-- The galactic rotation is the one of the definition: it takes the direction RA 192.25°, Dec 27.4° to
     the galactic pole, and the celestial pole to galactic longitude 123°, latitude 27.4°. -/
@@ -78,81 +76,81 @@ theorem galactic_frame_definition :
 
 /-! ### "mutually inverse … for every obliquity or observer latitude" (as directions on the sphere) -/
 
-/-- ecliptical2equatorial ∘ equatorial2ecliptical is the identity on directions, for every obliquity.
-    (Hypothesis `hlat`: the ecliptical latitude obtained is not exactly ±90°, where the source takes `tan`.) -/
-theorem inverse_ecliptical_of_equatorial (α δ ε lon lat : ℝ) (hδ : -90 < δ ∧ δ < 90)
-    (h : equatorial2ecliptical α δ ε = .ok (lon, lat)) (hlat : -90 < lat ∧ lat < 90) :
+/-- ecliptical2equatorial ∘ equatorial2ecliptical is the identity on directions, for every obliquity and every
+    direction (the poles of either frame included). -/
+theorem inverse_ecliptical_of_equatorial (α δ ε lon lat : ℝ)
+    (h : equatorial2ecliptical α δ ε = .ok (lon, lat)) :
     ∃ ra dec, ecliptical2equatorial lon lat ε = .ok (ra, dec) ∧ dir ra dec = dir α δ := by
-  obtain ⟨lon', lat', h', hd, _, _⟩ := equatorial2ecliptical_spec α δ ε hδ
+  obtain ⟨lon', lat', h', hd, _, _⟩ := equatorial2ecliptical_spec α δ ε
   rw [h] at h'; injection h' with h'; injection h' with e1 e2; subst e1 e2
-  obtain ⟨ra, dec, hr, hd2, _, _⟩ := ecliptical2equatorial_spec lon lat ε hlat
+  obtain ⟨ra, dec, hr, hd2, _, _⟩ := ecliptical2equatorial_spec lon lat ε
   exact ⟨ra, dec, hr, by rw [hd2, hd, rotX_neg_rotX]⟩
 
 /-- equatorial2ecliptical ∘ ecliptical2equatorial is the identity on directions, for every obliquity. -/
-theorem inverse_equatorial_of_ecliptical (l b ε ra dec : ℝ) (hb : -90 < b ∧ b < 90)
-    (h : ecliptical2equatorial l b ε = .ok (ra, dec)) (hdec : -90 < dec ∧ dec < 90) :
+theorem inverse_equatorial_of_ecliptical (l b ε ra dec : ℝ)
+    (h : ecliptical2equatorial l b ε = .ok (ra, dec)) :
     ∃ lon lat, equatorial2ecliptical ra dec ε = .ok (lon, lat) ∧ dir lon lat = dir l b := by
-  obtain ⟨ra', dec', h', hd, _, _⟩ := ecliptical2equatorial_spec l b ε hb
+  obtain ⟨ra', dec', h', hd, _, _⟩ := ecliptical2equatorial_spec l b ε
   rw [h] at h'; injection h' with h'; injection h' with e1 e2; subst e1 e2
-  obtain ⟨lon, lat, hr, hd2, _, _⟩ := equatorial2ecliptical_spec ra dec ε hdec
+  obtain ⟨lon, lat, hr, hd2, _, _⟩ := equatorial2ecliptical_spec ra dec ε
   exact ⟨lon, lat, hr, by rw [hd2, hd, rotX_rotX_neg]⟩
 
 /-- horizontal2equatorial ∘ equatorial2horizontal is the identity on directions, for every observer latitude. -/
-theorem inverse_horizontal_of_equatorial (H δ φ azi ele : ℝ) (hδ : -90 < δ ∧ δ < 90)
-    (h : equatorial2horizontal H δ φ = .ok (azi, ele)) (hele : -90 < ele ∧ ele < 90) :
+theorem inverse_horizontal_of_equatorial (H δ φ azi ele : ℝ)
+    (h : equatorial2horizontal H δ φ = .ok (azi, ele)) :
     ∃ H' dec, horizontal2equatorial azi ele φ = .ok (H', dec) ∧ dir H' dec = dir H δ := by
-  obtain ⟨a', e', h', hd, _, _⟩ := equatorial2horizontal_spec H δ φ hδ
+  obtain ⟨a', e', h', hd, _, _⟩ := equatorial2horizontal_spec H δ φ
   rw [h] at h'; injection h' with h'; injection h' with e1 e2; subst e1 e2
-  obtain ⟨H', dec, hr, hd2, _, _⟩ := horizontal2equatorial_spec azi ele φ hele
+  obtain ⟨H', dec, hr, hd2, _, _⟩ := horizontal2equatorial_spec azi ele φ
   exact ⟨H', dec, hr, by rw [hd2, hd]; exact tiltT_tilt _ _⟩
 
 /-- equatorial2horizontal ∘ horizontal2equatorial is the identity on directions, for every observer latitude. -/
-theorem inverse_equatorial_of_horizontal (A h φ H dec : ℝ) (hh : -90 < h ∧ h < 90)
-    (hc : horizontal2equatorial A h φ = .ok (H, dec)) (hdec : -90 < dec ∧ dec < 90) :
+theorem inverse_equatorial_of_horizontal (A h φ H dec : ℝ)
+    (hc : horizontal2equatorial A h φ = .ok (H, dec)) :
     ∃ azi ele, equatorial2horizontal H dec φ = .ok (azi, ele) ∧ dir azi ele = dir A h := by
-  obtain ⟨H', d', h', hd, _, _⟩ := horizontal2equatorial_spec A h φ hh
+  obtain ⟨H', d', h', hd, _, _⟩ := horizontal2equatorial_spec A h φ
   rw [hc] at h'; injection h' with h'; injection h' with e1 e2; subst e1 e2
-  obtain ⟨azi, ele, hr, hd2, _, _⟩ := equatorial2horizontal_spec H dec φ hdec
+  obtain ⟨azi, ele, hr, hd2, _, _⟩ := equatorial2horizontal_spec H dec φ
   exact ⟨azi, ele, hr, by rw [hd2, hd]; exact tilt_tiltT _ _⟩
 
 /-- galactic2equatorial ∘ equatorial2galactic is the identity on directions
     (303° − 180° = 123° and 192.25° − 180° = 12.25° is what makes it exact). -/
-theorem inverse_galactic_of_equatorial (α δ lon lat : ℝ) (hδ : -90 < δ ∧ δ < 90)
-    (h : equatorial2galactic α δ = .ok (lon, lat)) (hlat : -90 < lat ∧ lat < 90) :
+theorem inverse_galactic_of_equatorial (α δ lon lat : ℝ)
+    (h : equatorial2galactic α δ = .ok (lon, lat)) :
     ∃ ra dec, galactic2equatorial lon lat = .ok (ra, dec) ∧ dir ra dec = dir α δ := by
-  obtain ⟨lon', lat', h', hd, _, _⟩ := equatorial2galactic_spec α δ hδ
+  obtain ⟨lon', lat', h', hd, _, _⟩ := equatorial2galactic_spec α δ
   rw [h] at h'; injection h' with h'; injection h' with e1 e2; subst e1 e2
-  obtain ⟨ra, dec, hr, hd2, _, _⟩ := galactic2equatorial_spec lon lat hlat
+  obtain ⟨ra, dec, hr, hd2, _, _⟩ := galactic2equatorial_spec lon lat
   exact ⟨ra, dec, hr, by rw [hd2, hd, equatorialOfGalactic_galacticOfEquatorial]⟩
 
 /-- equatorial2galactic ∘ galactic2equatorial is the identity on directions. -/
-theorem inverse_equatorial_of_galactic (l b ra dec : ℝ) (hb : -90 < b ∧ b < 90)
-    (h : galactic2equatorial l b = .ok (ra, dec)) (hdec : -90 < dec ∧ dec < 90) :
+theorem inverse_equatorial_of_galactic (l b ra dec : ℝ)
+    (h : galactic2equatorial l b = .ok (ra, dec)) :
     ∃ lon lat, equatorial2galactic ra dec = .ok (lon, lat) ∧ dir lon lat = dir l b := by
-  obtain ⟨ra', dec', h', hd, _, _⟩ := galactic2equatorial_spec l b hb
+  obtain ⟨ra', dec', h', hd, _, _⟩ := galactic2equatorial_spec l b
   rw [h] at h'; injection h' with h'; injection h' with e1 e2; subst e1 e2
-  obtain ⟨lon, lat, hr, hd2, _, _⟩ := equatorial2galactic_spec ra dec hdec
+  obtain ⟨lon, lat, hr, hd2, _, _⟩ := equatorial2galactic_spec ra dec
   exact ⟨lon, lat, hr, by rw [hd2, hd, galacticOfEquatorial_equatorialOfGalactic]⟩
 
 /-- Mutually inverse IN COORDINATES: for a right ascension in [0°, 360°) and a declination strictly between the poles,
     converting to ecliptical and back returns exactly the same two numbers, for every obliquity. -/
 theorem roundtrip_equatorial_ecliptical (α δ ε lon lat : ℝ) (hα : 0 ≤ α ∧ α < 360) (hδ : -90 < δ ∧ δ < 90)
-    (h : equatorial2ecliptical α δ ε = .ok (lon, lat)) (hlat : -90 < lat ∧ lat < 90) :
+    (h : equatorial2ecliptical α δ ε = .ok (lon, lat)) :
     ecliptical2equatorial lon lat ε = .ok (α, δ) := by
-  obtain ⟨lon', lat', h', hd, _, _⟩ := equatorial2ecliptical_spec α δ ε hδ
+  obtain ⟨lon', lat', h', hd, _, _⟩ := equatorial2ecliptical_spec α δ ε
   rw [h] at h'; injection h' with h'; injection h' with e1 e2; subst e1 e2
-  obtain ⟨ra, dec, hr, hd2, hra, hdec⟩ := ecliptical2equatorial_spec lon lat ε hlat
+  obtain ⟨ra, dec, hr, hd2, hra, hdec⟩ := ecliptical2equatorial_spec lon lat ε
   have hdir : dir α δ = dir ra dec := by rw [hd2, hd, rotX_neg_rotX]
   obtain ⟨x1, x2⟩ := dir_inj hδ hdec (by rw [abs_lt]; constructor <;> linarith [hα.1, hα.2, hra.1, hra.2]) hdir
   rw [hr, ← x1, ← x2]
 
 /-- The same for galactic coordinates. -/
 theorem roundtrip_equatorial_galactic (α δ lon lat : ℝ) (hα : 0 ≤ α ∧ α < 360) (hδ : -90 < δ ∧ δ < 90)
-    (h : equatorial2galactic α δ = .ok (lon, lat)) (hlat : -90 < lat ∧ lat < 90) :
+    (h : equatorial2galactic α δ = .ok (lon, lat)) :
     galactic2equatorial lon lat = .ok (α, δ) := by
-  obtain ⟨lon', lat', h', hd, _, _⟩ := equatorial2galactic_spec α δ hδ
+  obtain ⟨lon', lat', h', hd, _, _⟩ := equatorial2galactic_spec α δ
   rw [h] at h'; injection h' with h'; injection h' with e1 e2; subst e1 e2
-  obtain ⟨ra, dec, hr, hd2, hra, hdec⟩ := galactic2equatorial_spec lon lat hlat
+  obtain ⟨ra, dec, hr, hd2, hra, hdec⟩ := galactic2equatorial_spec lon lat
   have hdir : dir α δ = dir ra dec := by rw [hd2, hd, equatorialOfGalactic_galacticOfEquatorial]
   obtain ⟨x1, x2⟩ := dir_inj hδ hdec (by rw [abs_lt]; constructor <;> linarith [hα.1, hα.2, hra.1, hra.2]) hdir
   rw [hr, ← x1, ← x2]
@@ -160,11 +158,11 @@ theorem roundtrip_equatorial_galactic (α δ lon lat : ℝ) (hα : 0 ≤ α ∧ 
 /-- The same for horizontal coordinates (hour angle in (-180°, 180°], the range the source returns), for every
     observer latitude. -/
 theorem roundtrip_equatorial_horizontal (H δ φ azi ele : ℝ) (hH : -180 < H ∧ H ≤ 180) (hδ : -90 < δ ∧ δ < 90)
-    (h : equatorial2horizontal H δ φ = .ok (azi, ele)) (hele : -90 < ele ∧ ele < 90) :
+    (h : equatorial2horizontal H δ φ = .ok (azi, ele)) :
     horizontal2equatorial azi ele φ = .ok (H, δ) := by
-  obtain ⟨a', e', h', hd, _, _⟩ := equatorial2horizontal_spec H δ φ hδ
+  obtain ⟨a', e', h', hd, _, _⟩ := equatorial2horizontal_spec H δ φ
   rw [h] at h'; injection h' with h'; injection h' with e1 e2; subst e1 e2
-  obtain ⟨H', dec, hr, hd2, hH', hdec⟩ := horizontal2equatorial_spec azi ele φ hele
+  obtain ⟨H', dec, hr, hd2, hH', hdec⟩ := horizontal2equatorial_spec azi ele φ
   have hdir : dir H δ = dir H' dec := by rw [hd2, hd]; exact (tiltT_tilt _ _).symm
   obtain ⟨x1, x2⟩ := dir_inj hδ hdec (by rw [abs_lt]; constructor <;> linarith [hH.1, hH.2, hH'.1, hH'.2]) hdir
   rw [hr, ← x1, ← x2]
@@ -183,40 +181,37 @@ theorem frame_rotations_orthogonal (a : ℝ) (u v : V3) :
 /-- The cosine of the angle between two directions is unchanged by equatorial2ecliptical
     (and, by the same one-line argument from `frame_rotations_orthogonal`, by the other five). -/
 theorem preserves_angle_equatorial2ecliptical (α1 δ1 α2 δ2 ε l1 b1 l2 b2 : ℝ)
-    (h1 : -90 < δ1 ∧ δ1 < 90) (h2 : -90 < δ2 ∧ δ2 < 90)
     (e1 : equatorial2ecliptical α1 δ1 ε = .ok (l1, b1)) (e2 : equatorial2ecliptical α2 δ2 ε = .ok (l2, b2)) :
     dot (dir l1 b1) (dir l2 b2) = dot (dir α1 δ1) (dir α2 δ2) := by
-  obtain ⟨_, _, h', hd1, _, _⟩ := equatorial2ecliptical_spec α1 δ1 ε h1
+  obtain ⟨_, _, h', hd1, _, _⟩ := equatorial2ecliptical_spec α1 δ1 ε
   rw [e1] at h'; injection h' with h'; injection h' with x1 x2; subst x1 x2
-  obtain ⟨_, _, h', hd2, _, _⟩ := equatorial2ecliptical_spec α2 δ2 ε h2
+  obtain ⟨_, _, h', hd2, _, _⟩ := equatorial2ecliptical_spec α2 δ2 ε
   rw [e2] at h'; injection h' with h'; injection h' with x1 x2; subst x1 x2
   rw [hd1, hd2, rotX_dot]
 
 theorem preserves_angle_equatorial2horizontal (H1 δ1 H2 δ2 φ a1 e1 a2 e2 : ℝ)
-    (h1 : -90 < δ1 ∧ δ1 < 90) (h2 : -90 < δ2 ∧ δ2 < 90)
     (c1 : equatorial2horizontal H1 δ1 φ = .ok (a1, e1)) (c2 : equatorial2horizontal H2 δ2 φ = .ok (a2, e2)) :
     dot (dir a1 e1) (dir a2 e2) = dot (dir H1 δ1) (dir H2 δ2) := by
-  obtain ⟨_, _, h', hd1, _, _⟩ := equatorial2horizontal_spec H1 δ1 φ h1
+  obtain ⟨_, _, h', hd1, _, _⟩ := equatorial2horizontal_spec H1 δ1 φ
   rw [c1] at h'; injection h' with h'; injection h' with x1 x2; subst x1 x2
-  obtain ⟨_, _, h', hd2, _, _⟩ := equatorial2horizontal_spec H2 δ2 φ h2
+  obtain ⟨_, _, h', hd2, _, _⟩ := equatorial2horizontal_spec H2 δ2 φ
   rw [c2] at h'; injection h' with h'; injection h' with x1 x2; subst x1 x2
   rw [hd1, hd2]; exact tilt_dot _ _ _
 
 theorem preserves_angle_equatorial2galactic (α1 δ1 α2 δ2 l1 b1 l2 b2 : ℝ)
-    (h1 : -90 < δ1 ∧ δ1 < 90) (h2 : -90 < δ2 ∧ δ2 < 90)
     (e1 : equatorial2galactic α1 δ1 = .ok (l1, b1)) (e2 : equatorial2galactic α2 δ2 = .ok (l2, b2)) :
     dot (dir l1 b1) (dir l2 b2) = dot (dir α1 δ1) (dir α2 δ2) := by
-  obtain ⟨_, _, h', hd1, _, _⟩ := equatorial2galactic_spec α1 δ1 h1
+  obtain ⟨_, _, h', hd1, _, _⟩ := equatorial2galactic_spec α1 δ1
   rw [e1] at h'; injection h' with h'; injection h' with x1 x2; subst x1 x2
-  obtain ⟨_, _, h', hd2, _, _⟩ := equatorial2galactic_spec α2 δ2 h2
+  obtain ⟨_, _, h', hd2, _, _⟩ := equatorial2galactic_spec α2 δ2
   rw [e2] at h'; injection h' with h'; injection h' with x1 x2; subst x1 x2
   rw [hd1, hd2, galactic_dot]
 
 /-! ### "angular separation … equal the dot/cross-product value …, are symmetric" -/
 
 /-- `angular_separation` never raises; the cosine of the result is the dot product of the two unit vectors and the
-    result lies in [0°, 180°] (which determines it: it is the arccos of the dot product).  No hypothesis: the
-    haversine form needs no `tan`. -/
+    result lies in [0°, 180°] (which determines it: it is the arccos of the dot product).  No hypothesis (Meeus'
+    x, y, z formula with `atan2`). -/
 theorem separation_cos_eq_dot (α1 δ1 α2 δ2 : ℝ) :
     ∃ θ, angular_separation α1 δ1 α2 δ2 = .ok θ ∧
       cos (rad θ) = dot (dir α1 δ1) (dir α2 δ2) ∧ 0 ≤ θ ∧ θ ≤ 180 :=
@@ -235,49 +230,50 @@ theorem separation_symmetric (α1 δ1 α2 δ2 : ℝ) :
 /-! ### "relative position angle equals the dot/cross-product value …, antisymmetric" -/
 
 /-- The position angle of body 1 relative to body 2 is the argument of (north, east) components of body 1 in the
-    tangent frame at body 2 (i.e. `atan2(u₁·east₂, u₁·north₂)`), in (-180°, 180°]. -/
-theorem position_angle_eq_arg (α1 δ1 α2 δ2 : ℝ) (h1 : -90 < δ1 ∧ δ1 < 90) :
+    tangent frame at body 2 (i.e. `atan2(u₁·east₂, u₁·north₂)`), in (-180°, 180°] — for every pair of directions. -/
+theorem position_angle_eq_arg (α1 δ1 α2 δ2 : ℝ) :
     rad (relative_position_angle α1 δ1 α2 δ2)
         = Complex.arg ⟨dot (dir α1 δ1) (northV α2 δ2), dot (dir α1 δ1) (eastV α2)⟩ ∧
       -180 < relative_position_angle α1 δ1 α2 δ2 ∧ relative_position_angle α1 δ1 α2 δ2 ≤ 180 :=
-  ⟨rpa_spec α1 δ1 α2 δ2 h1, rpa_range α1 δ1 α2 δ2⟩
+  ⟨rpa_spec α1 δ1 α2 δ2, rpa_range α1 δ1 α2 δ2⟩
 
 /-- Antisymmetry, first exact sense: exchanging the two right ascensions (a mirror image) negates the angle. -/
-theorem position_angle_mirror (α1 δ1 α2 δ2 : ℝ) (h : sin (rad α1 - rad α2) ≠ 0) :
+theorem position_angle_mirror (α1 δ1 α2 δ2 : ℝ) (h1 : -90 < δ1 ∧ δ1 < 90) (h : sin (rad α1 - rad α2) ≠ 0) :
     relative_position_angle α2 δ1 α1 δ2 = -relative_position_angle α1 δ1 α2 δ2 :=
-  rpa_mirror α1 δ1 α2 δ2 h
+  rpa_mirror α1 δ1 α2 δ2 h1 h
 
 /-- Antisymmetry, second exact sense: the two orderings of the bodies give angles of opposite signs
     (their sum is not 0 or ±180° in general: the meridians converge). -/
-theorem position_angle_opposite_sign (α1 δ1 α2 δ2 : ℝ) (h : sin (rad α1 - rad α2) ≠ 0) :
+theorem position_angle_opposite_sign (α1 δ1 α2 δ2 : ℝ) (h1 : -90 < δ1 ∧ δ1 < 90) (h2 : -90 < δ2 ∧ δ2 < 90)
+    (h : sin (rad α1 - rad α2) ≠ 0) :
     (relative_position_angle α1 δ1 α2 δ2 < 0 ↔ 0 < relative_position_angle α2 δ2 α1 δ1) ∧
     (0 < relative_position_angle α1 δ1 α2 δ2 ↔ relative_position_angle α2 δ2 α1 δ1 < 0) := by
   have hneg : sin (rad α2 - rad α1) = -sin (rad α1 - rad α2) := by rw [← sin_neg]; congr 1; ring
   constructor
   · constructor
-    · intro h1
-      apply rpa_pos_of_sin_pos
-      rw [hneg]; linarith [(rpa_neg_iff α1 δ1 α2 δ2).mp h1]
-    · intro h2
-      apply (rpa_neg_iff α1 δ1 α2 δ2).mpr
+    · intro k1
+      apply rpa_pos_of_sin_pos _ _ _ _ h2
+      rw [hneg]; linarith [(rpa_neg_iff α1 δ1 α2 δ2 h1).mp k1]
+    · intro k2
+      apply (rpa_neg_iff α1 δ1 α2 δ2 h1).mpr
       by_contra hc
       have hpos : 0 < sin (rad α1 - rad α2) := lt_of_le_of_ne (not_lt.mp hc) (Ne.symm h)
-      have := (rpa_neg_iff α2 δ2 α1 δ1).mpr (by rw [hneg]; linarith)
+      have := (rpa_neg_iff α2 δ2 α1 δ1 h2).mpr (by rw [hneg]; linarith)
       linarith
   · constructor
-    · intro h1
-      apply (rpa_neg_iff α2 δ2 α1 δ1).mpr
+    · intro k1
+      apply (rpa_neg_iff α2 δ2 α1 δ1 h2).mpr
       rw [hneg]
       by_contra hc
       have hlt : sin (rad α1 - rad α2) < 0 := by
         rcases lt_or_gt_of_ne h with h' | h'
         · exact h'
         · exfalso; apply hc; linarith
-      have := (rpa_neg_iff α1 δ1 α2 δ2).mpr hlt
+      have := (rpa_neg_iff α1 δ1 α2 δ2 h1).mpr hlt
       linarith
-    · intro h2
-      apply rpa_pos_of_sin_pos
-      have := (rpa_neg_iff α2 δ2 α1 δ1).mp h2
+    · intro k2
+      apply rpa_pos_of_sin_pos _ _ _ _ h1
+      have := (rpa_neg_iff α2 δ2 α1 δ1 h2).mp k2
       rw [hneg] at this; linarith
 
 example : sin (rad 90 - rad 0) ≠ 0 := by
